@@ -1,9 +1,128 @@
-import Gzx.Util
+import Gzx.Model.RS
+import Gzx.Ref.GF
 namespace Gzx.Driver.C04
-open Gzx
+open Gzx Gzx.GF Gzx.RS
 
-/-- line-protocol handler of suite `c04` (arguments after the suite name) -/
+/-- the six fields, by the short names the harness uses -/
+def fieldOf : String → Option GF
+  | "a12" => some aztecData12
+  | "a10" => some aztecData10
+  | "a6" => some aztecData6
+  | "a4" => some aztecParam
+  | "qr" => some qrCode256
+  | "dm" => some dataMatrix256
+  | "a8" => some aztecData8
+  | "mc" => some maxicode64
+  | _ => none
+
+def showR : Res Nat → String
+  | .ok v => toString v
+  | .error (.panic _) => "PANIC"
+  | .error e => "ERR:" ++ e.tag
+
+def showL : Res (List Nat) → String
+  | .ok v => "ok " ++ showNatList v
+  | .error (.panic _) => "PANIC"
+  | .error e => "ERR:" ++ e.tag
+
+def showD : DRes (List Nat) → String
+  | .ok v => "ok " ++ showNatList v
+  | .error (.base (.panic _)) => "PANIC"
+  | .error e => "ERR:" ++ e.tag
+
+def showPP : Res (Poly × Poly) → String
+  | .ok (q, r) => "ok " ++ showNatList q ++ " " ++ showNatList r
+  | .error (.panic _) => "PANIC"
+  | .error e => "ERR:" ++ e.tag
+
+/-- element-wise binary op on two equally long operand lists; results joined by ',' -/
+def zipShow (f : Nat → Nat → String) (as bs : List Nat) : String :=
+  ",".intercalate (List.zipWith f as bs)
+
 def handle : List String → String
+  | ["tab", f, which] =>
+    match fieldOf f with
+    | some F =>
+      if which == "exp" then showNatList F.exp.toList
+      else if which == "log" then showNatList F.log.toList
+      else if which == "par" then s!"{F.prim},{F.size},{F.base}"
+      else "bad-op"
+    | none => "bad-field"
+  | ["mulv", f, as, bs] =>
+    match fieldOf f, parseNatList? as, parseNatList? bs with
+    | some F, some as, some bs => zipShow (fun a b => showR (F.mul a b)) as bs
+    | _, _, _ => "bad-op"
+  | ["refv", f, as, bs] =>   -- reference product pmod prim (clmul a b)
+    match fieldOf f, parseNatList? as, parseNatList? bs with
+    | some F, some as, some bs => zipShow (fun a b => toString (Ref.GF.gmul F.prim a b)) as bs
+    | _, _, _ => "bad-op"
+  | ["invv", f, as] =>
+    match fieldOf f, parseNatList? as with
+    | some F, some as => ",".intercalate (as.map (fun a => showR (F.inv a)))
+    | _, _ => "bad-op"
+  | ["expv", f, as] =>
+    match fieldOf f, parseNatList? as with
+    | some F, some as => ",".intercalate (as.map (fun a => showR (F.expAt a)))
+    | _, _ => "bad-op"
+  | ["logv", f, as] =>
+    match fieldOf f, parseNatList? as with
+    | some F, some as => ",".intercalate (as.map (fun a => showR (F.logOf a)))
+    | _, _ => "bad-op"
+  | ["pnew", cs] =>
+    match parseNatList? cs with
+    | some cs => showL (mkPoly cs)
+    | _ => "bad-op"
+  | ["padd", p, q] =>
+    match parseNatList? p, parseNatList? q with
+    | some p, some q => showL (addOrSubtract p q)
+    | _, _ => "bad-op"
+  | ["pmul", f, p, q] =>
+    match fieldOf f, parseNatList? p, parseNatList? q with
+    | some F, some p, some q => showL (multiply F p q)
+    | _, _, _ => "bad-op"
+  | ["pscale", f, p, s] =>
+    match fieldOf f, parseNatList? p, parseNat? s with
+    | some F, some p, some s => showL (multiplyBy F p s)
+    | _, _, _ => "bad-op"
+  | ["pmono", f, p, d, c] =>
+    match fieldOf f, parseNatList? p, parseNat? d, parseNat? c with
+    | some F, some p, some d, some c => showL (multiplyByMonomial F p d c)
+    | _, _, _, _ => "bad-op"
+  | ["bmono", d, c] =>
+    match parseNat? d, parseNat? c with
+    | some d, some c => showL (buildMonomial d c)
+    | _, _ => "bad-op"
+  | ["pdiv", f, p, q] =>
+    match fieldOf f, parseNatList? p, parseNatList? q with
+    | some F, some p, some q => showPP (divide F p q)
+    | _, _, _ => "bad-op"
+  | ["peval", f, p, as] =>
+    match fieldOf f, parseNatList? p, parseNatList? as with
+    | some F, some p, some as => ",".intercalate (as.map (fun a => showR (evaluateAt F p a)))
+    | _, _, _ => "bad-op"
+  | ["gen", f, d] =>
+    match fieldOf f, parseNat? d with
+    | some F, some d => showL (buildGenerator F d)
+    | _, _ => "bad-op"
+  | ["enc", f, w, ec] =>
+    match fieldOf f, parseNatList? w, parseNat? ec with
+    | some F, some w, some ec => showL (encodeArr F w ec)
+    | _, _, _ => "bad-op"
+  | ["par", f, d, ec] =>   -- parity only (the API the other models import)
+    match fieldOf f, parseNatList? d, parseNat? ec with
+    | some F, some d, some ec => showL (encode F d ec)
+    | _, _, _ => "bad-op"
+  | ["dec", f, w, twoS] =>
+    match fieldOf f, parseNatList? w, parseNat? twoS with
+    | some F, some w, some t => showD (decodeD F w t)
+    | _, _, _ => "bad-op"
+  | ["synd", f, w, twoS] =>
+    match fieldOf f, parseNatList? w, parseNat? twoS with
+    | some F, some w, some t =>
+      match mkPoly w with
+      | .ok p => showL (syndromes F p t 0)
+      | .error e => "ERR:" ++ e.tag
+    | _, _, _ => "bad-op"
   | _ => "bad-op"
 
 end Gzx.Driver.C04
